@@ -253,6 +253,26 @@ P["C18"] = {
               "init": ["strconv", "unicode/utf8"], "require_reach": ["c18:quoted"], "thorough": {"max_values": 300}, "bounds": "every 2-byte string constant"}]}
 
 
+P["C20"] = {
+    "design_ref": "DESIGN.md §8 C20", "assumptions": TIERC_ASSUME + [
+        "over-allocation is decided at every make() whose size derives from the input: the executor asserts size*elemsize <= 4*len(input) + 128 KiB for ALL values of the mutated field (solver), then continues with representative sizes (0, 1, two solver-chosen) - explicit concretisation",
+        "hang / stack exhaustion = a path exhausting the executor's per-path instruction or call-depth budget (reported as a violation); wall-clock time and RSS are not measured",
+        "native confirmation of an allocation counterexample: the replay allocates more than 8x the policy (runtime.MemStats.TotalAlloc) or the process dies with 'out of memory'"],
+    "bounds": "GRB stream of template tiny (8 KB, 133 eight-byte fields; thorough: template two, 24 KB): every 8-byte field (length prefix, element count, node type, salience, float payload, value type) replaced, one at a time, by 8 fully symbolic bytes; salience literal: every int64; JSON rule translator: 24 rule shapes incl. wrong types at every position, nesting depth 1100; truncation of the GRB stream at every offset (C12's run)",
+    "outside": "GRL text through the ANTLR lexer/parser and JSON facts / JSON rule TEXT through encoding/json on symbolic bytes (not reachable by this technique, DESIGN §9); mutations that edit more than one field or splice strings; time and memory are bounded symbolically (loop/alloc bounds), not measured",
+    "runs": [dict(tierC("VerifC20Field", "tiny", [0, -1], QT, ["c20:load-returned", "c20:field-mutated"], "every 8-byte field of template tiny's stream replaced by symbolic bytes"),
+                  extra_label_prefixes=["alloc-bounded:"], replay_each_in_own_process=True, compare_events=True),
+             dict(salienceK(QT), name="salience-literal"),
+             {"name": "c18-malformed", "pkgdir": "pkg", "harness": [["pkg", "harness/pkg"]], "entry": "VerifC18Malformed", "tiers": QT, "require_reach": ["c18:malformed-case"], "bounds": "24 JSON rule shapes through pkg.ParseRule"},
+             {"name": "json-rule-text", "pkgdir": "pkg", "harness": [["pkg", "harness/pkg"]], "entry": "VerifC20JSONText", "tiers": QT, "require_reach": ["c20:json-text"],
+              "bounds": "JSONResource.Load on a structure-aware corpus of 33 CONCRETE JSON rule texts and fragments (empty / blank / truncated / null at every position / wrong kinds); enumeration executed from SSA, not solver-quantified"},
+             {"name": "json-nesting", "pkgdir": "pkg", "harness": [["pkg", "harness/pkg"]], "entry": "VerifC18Nesting", "args": [1100], "tiers": QT, "require_reach": ["c18:nesting"], "bounds": "JSON nesting depth 1100 (guard at 1024)"},
+             tierC("VerifTierCTruncate", "tiny", [0], QT, ["tierC:cut-inside-a-field", "tierC:cut-at-a-field-boundary"], "every truncation offset of template tiny's stream: no panic escapes"),
+             dict(tierC("VerifC20Field", "two", [0, -1], T, ["c20:load-returned", "c20:field-mutated"], "every 8-byte field of template two's stream replaced by symbolic bytes"),
+                  extra_label_prefixes=["alloc-bounded:"], replay_each_in_own_process=True),
+             ]}
+
+
 def c05(t, tiers):
     return {"name": "c05-family-%d" % t, "pkgdir": "zztier", "harness": TIERC_H, "entry": "VerifC05", "args": [t], "tiers": tiers, "templates": ["c05_%d.grl" % t],
             "require_reach": ["c05:case"], "bounds": "generated family part %d (30 expressions): evaluated through Sink = <expr> and as a rule condition on symbolic operands" % t}
